@@ -389,7 +389,7 @@ func (j *judge) judgeStep(i int, pre, post *Rec, before, after *DiskObs, eff Eff
 	cfg := j.configAt(i)
 	lg := &stepLog{Step: i, Note: st.Note, NowHours: j.now, Fault: st.Fault, Reached: reached, Crashed: post == nil, eff: eff}
 	j.logs = append(j.logs, lg)
-	dirFault := st.Fault == FTombCorrupt || st.Fault == FTombDir
+	dirFault := isDirFault(st.Fault)
 
 	// -- files decode or are absent ------------------------------------------------
 	for _, d := range []struct {
@@ -974,10 +974,24 @@ func (rn *runner) execRun(rs *RunSpec) *runResult {
 				}
 				eff := Effect{}
 				reached := false
-				if f := steps[s].Fault; f == FTombCorrupt || f == FTombDir {
-					eff.StoreCorrupt = true
-					reached = true
-					j.count("fault/"+f, 1)
+				if f := steps[s].Fault; isDirFault(f) {
+					// reached = the start really found a store it cannot decode
+					// (tomb-empty / tomb-torn need a store that was written before)
+					if b := p[0].Before; b != nil && strings.HasPrefix(b.Tomb, "undecodable") {
+						eff.StoreCorrupt = true
+						reached = true
+						j.count("fault/"+f, 1)
+						// the class that matters most: a revocation is on record
+						// ONLY in that store, and the configuration still lists the key
+						for _, c := range j.configAt(s) {
+							if !c.Revoked && c.Key < len(j.L.k) && j.L.k[c.Key].revoked {
+								j.count("store_unreadable_revoked_key_configured/"+f, 1)
+								break
+							}
+						}
+					} else {
+						j.count("fault_not_applicable/"+f, 1)
+					}
 				}
 				j.judgeStep(s, p[0], p[1], p[0].Before, p[1].After, eff, reached)
 			}
